@@ -252,24 +252,6 @@ theorem syncNonces_kept {B : Pool} {L : List Addr} {u : Tx} (s : Pool) (h : Kept
 
 /-! ### the insertion core of `add` -/
 
-/-- what `add` does after validation and after making room -/
-def Pool.addCore (s : Pool) (t : Tx) (loc : Bool) : Err × Bool × Pool :=
-  if (s.pending t.sender).overlaps t then
-    let r := (s.pending t.sender).add t s.cfg.priceBump
-    if !r.1 then (.replace, false, s)
-    else
-      let all := match r.2.1 with
-        | some o => delAll o s.all
-        | none => s.all
-      (.ok, r.2.1.isSome, { s with pending := upd s.pending t.sender r.2.2, all := insertAll t all })
-  else
-    let q := s.enqueueTx t
-    if !q.2.1 then (.replace, false, s)
-    else
-      let s := q.2.2
-      let s := if loc && !s.isLocal t.sender then { s with locals := t.sender :: s.locals } else s
-      (.ok, q.1, s)
-
 theorem add_eq_core (s : Pool) (t : Tx) (loc : Bool) (sh : Shape) (victims : List Tx) :
     s.add t loc sh victims =
       if sh = .wellformed ∧ t ∈ s.all then (.known, false, s)
@@ -414,7 +396,7 @@ theorem addCore_enters {s : Pool} (t : Tx) (hw : WeakAll s)
 theorem sanitize_nonlocal {s : Pool} {n : Nat} {vs : List Tx} : ∀ v ∈ s.sanitizeVictims n vs, v.sender ∉ s.locals := by
   intro v hv
   unfold Pool.sanitizeVictims at hv
-  have h1 := List.mem_eraseDups.mp (List.mem_of_mem_take hv)
+  have h1 := List.mem_of_mem_take hv
   have h2 := (List.mem_filter.mp h1).2
   unfold Pool.isLocal at h2
   simp only [Bool.and_eq_true, decide_eq_true_eq, Bool.not_eq_true', decide_eq_false_iff_not] at h2
